@@ -609,7 +609,11 @@ func callSSA(i *interpreter, caller *frame, callpos token.Pos, fn *ssa.Function,
 			return ext(fr, args)
 		}
 		if fn.Blocks == nil {
-			i.path.unsupported("no code for function: %s", name)
+			chain := ""
+			for c, k := caller, 0; c != nil && k < 4; c, k = c.caller, k+1 {
+				chain += " <- " + fnKey(c.fn)
+			}
+			i.path.unsupported("no code for function: %s%s", name, chain)
 		}
 	}
 
